@@ -26,6 +26,7 @@ var modelRedirect = map[string]string{
 	"github.com/tetratelabs/wazero/internal/platform.mmapCodeSegmentAMD64": "ModelMmapCodeSegment",
 	"github.com/tetratelabs/wazero/internal/platform.munmapCodeSegment": "ModelMunmapCodeSegment",
 	"github.com/tetratelabs/wazero/internal/platform.MprotectRX":      "ModelMprotectRX",
+	"crypto/sha256.New":    "ModelSha256New",
 	"os.CreateTemp":        "ModelCreateTemp",
 	"os.OpenFile":          "ModelOpenFile",
 	"os.Open":              "ModelOpen",
@@ -465,6 +466,9 @@ func (ex *Exec) step(st *State) {
 		ex.jump(st, f, f.block.Succs[0])
 	case *ssa.If:
 		c := ex.get(f, in.Cond).(*Term)
+		if !c.IsConst() && ex.ifConvert(st, f, c) {
+			return
+		}
 		if ex.decide(st, c) {
 			ex.jump(st, f, f.block.Succs[0])
 		} else {
@@ -578,6 +582,73 @@ func (ex *Exec) jump(st *State, f *Frame, to *ssa.BasicBlock) {
 	f.prev = from
 	f.block = to
 	f.pc = len(phis)
+}
+
+// ifConvert handles `if c` whose arms are empty (a triangle or diamond that only selects scalar phi values at the join,
+// e.g. `if b { r = 1 }`): the join's phis become ite terms and the path does not fork. Reports false when the shape or a
+// phi operand does not qualify (the caller then forks as usual).
+func (ex *Exec) ifConvert(st *State, f *Frame, c *Term) bool {
+	b := f.block
+	s0, s1 := b.Succs[0], b.Succs[1]
+	emptyTo := func(x *ssa.BasicBlock) *ssa.BasicBlock {
+		if len(x.Instrs) == 1 && len(x.Preds) == 1 && len(x.Succs) == 1 {
+			if _, ok := x.Instrs[0].(*ssa.Jump); ok {
+				return x.Succs[0]
+			}
+		}
+		return nil
+	}
+	var join, pT, pF *ssa.BasicBlock
+	switch {
+	case emptyTo(s0) != nil && emptyTo(s0) == emptyTo(s1):
+		join, pT, pF = emptyTo(s0), s0, s1
+	case emptyTo(s0) == s1:
+		join, pT, pF = s1, s0, b
+	case emptyTo(s1) == s0:
+		join, pT, pF = s0, b, s1
+	default:
+		return false
+	}
+	if join.Index <= b.Index || len(join.Preds) != 2 {
+		return false
+	}
+	iT, iF := -1, -1
+	for i, p := range join.Preds {
+		if p == pT {
+			iT = i
+		}
+		if p == pF {
+			iF = i
+		}
+	}
+	if iT < 0 || iF < 0 {
+		return false
+	}
+	var phis []*ssa.Phi
+	var vals []Value
+	for _, ins := range join.Instrs {
+		p, ok := ins.(*ssa.Phi)
+		if !ok {
+			break
+		}
+		vt, okT := ex.get(f, p.Edges[iT]).(*Term)
+		vf, okF := ex.get(f, p.Edges[iF]).(*Term)
+		if !okT || !okF || vt.sort != vf.sort {
+			return false
+		}
+		phis = append(phis, p)
+		vals = append(vals, ex.tb.Ite(c, vt, vf))
+	}
+	if len(phis) == 0 {
+		return false
+	}
+	for i, p := range phis {
+		f.env[p] = vals[i]
+	}
+	f.prev = pF
+	f.block = join
+	f.pc = len(phis)
+	return true
 }
 
 // ---- calls
